@@ -175,7 +175,7 @@ def generate(rs: int, tier: str, index: int) -> dict:
             nb["coefficients"] = [[float(numpy.nextafter(numpy.dtype(d1).type(v), numpy.dtype(d1).type(numpy.inf if cn.chance(0.5) else -numpy.inf))) if cn.chance(0.7) else v for v in col] for col in a["coefficients"]]
             step["b"] = nb
     elif kind == "shape":
-        step["fn"] = ch.choice(["getitem", "reshape", "transpose", "concatenate", "where", "diff", "ediff1d", "getitem_mask", "stack", "repeat", "tile", "expand_dims", "sum", "cumsum", "getitem_fancy", "getitem_fancy"])
+        step["fn"] = ch.choice(["getitem", "reshape", "transpose", "concatenate", "where", "diff", "ediff1d", "getitem_mask", "stack", "repeat", "tile", "expand_dims", "sum", "cumsum", "getitem_fancy", "getitem_fancy", "hstack", "vstack", "dstack"])
         shape = ch.choice([(2,), (3,), (2, 2), (2, 3)])
         if step["fn"] == "getitem_fancy":
             shape = ch.choice([(2, 3, 2), (2, 2, 3), (3, 2, 2), (2, 3)])
@@ -479,7 +479,7 @@ class Runner:
                 return (lambda: numpoly.repeat(self.build(a), 2, axis=0)), Expect(d1, (sa[0] * 2,) + sa[1:], _strip({key: numpy.repeat(v, 2, axis=0) for key, v in ma.items()})), fn, w1
             if fn == "tile":
                 return (lambda: numpoly.tile(self.build(a), 2)), Expect(d1, numpy.tile(numpy.zeros(sa), 2).shape, _strip({key: numpy.tile(v, 2) for key, v in ma.items()})), fn, w1
-            if fn in ("concatenate", "stack"):
+            if fn in ("concatenate", "stack", "hstack", "vstack", "dstack"):
                 npf = getattr(numpy, fn)
                 rt = numpy.result_type(d1, d2)
                 keys = set(ma) | set(mb)
